@@ -1290,6 +1290,7 @@ def hidpos_family(seed, maxlen=3):
               (("many", "non_strict"), ("one", "strict")), (("many", "any"), None), (("opt", "non_strict"), None)]
     for i, (a, b) in enumerate(shapes):
         p1 = pos("p1", a[0], a[1]); p1["hidden"] = True
+        p1["hide_inner"] = True         # `.hide().many()` as well as `.many().hide()`
         items = [p1] + ([pos("p2", b[0], b[1])] if b else [])
         if b and i % 2:
             items[1]["hidden"] = (b[0] != "one")
